@@ -32,6 +32,10 @@ def obligations(tier):
            bounds="ints unbounded, bool list with equal elements, selector: every str <= 7 chars"),
         CH("sorted_walk_indices_and_hyphens", H, "sel_sorted", t, functions=F[:3], stubs=[FMT],
            bounds="list of 11 elements (indices 0..10), sibling keys 'sha' / 'sha-1' with nested value; selector: every str <= 8 chars"),
+        CH("selector_lists_symbolic", H, "sel_validate2", t, functions=F, bounds="two selector strings, each every str <= 4 chars, on an object whose property names are prefixes of one another"),
+        CH("selector_lists_on_objects", H, "sel_lists", t, mode="E1s", functions=F + ["stix2.markings.add_markings", "stix2.parsing.parse"],
+           bounds="3 real objects x every path with its last 1..3 characters cut off (a near miss) placed before / between / after valid selectors x validate, get_markings, "
+                  "is_marked, add_markings (object and dict), parse (one entry and two entries)"),
         CH("objects_embedded_and_extensions", H, "sel_objects", t, mode="E1s", functions=F + ["stix2.markings.add_markings", "stix2.parsing.parse"],
            bounds="3 real objects x (every path of their JSON + 10 near misses); validate, add/get/is_marked/set/remove/clear_markings on unmarked and marked objects, parse with granular_markings"),
     ] + ([CH("every_class_every_path_p%d" % q, H, "sel_all_classes", t, mode="E1s", functions=F, env={"VERIF_PART": str(q)},
